@@ -482,6 +482,11 @@ class SymArr:
     Mutation (``a[i] = v``) replaces `fn` by a functional update, so aliases see it (same object).
     """
 
+    @property
+    def _version(self):
+        """torch.Tensor._version (in-place modification counter): the write counter stands for it"""
+        return self.writes
+
     def __init__(self, shape, fn, kind="real", pylist=False, name=None, base=None):
         self.shape = tuple(shape)
         self.fn = fn
